@@ -197,6 +197,9 @@ def direct_calls(ctx, rng, L, v):
         lambda: v.replace(sub(False), rng.choice(['', 'x', 'yy', sub(False)]), rng.choice([-1, 0, 1, 2])),
         lambda: v.replace('', rng.choice(['x', '', 'ab']), rng.choice([-1, 0, 1, 2, 50])),
         lambda: v.replace(sub(False), L.AnsiString('QQ', 'blue')),
+        # a plain-str replacement carrying escape sequences is parsed (by design): shorter than it looks
+        lambda: v.replace(sub(False), rng.choice(['x\x1b[1my', '\x1b[31m', 'a\x1b[0;4mb\x1b[m', '\x1b[38;5;9mZ'])),
+        lambda: v.replace(t[:1], '\x1b[1m' + t[:1] + '\x1b[m', rng.choice([-1, 2])),
         lambda: (lambda o: v.replace(o, o))(sub(False)), lambda: v.replace(t[:2], t[:2], rng.choice([-1, 1])),
         lambda: v.split(rng.choice([None, sub(False), ' ', 'ab'])), lambda: v.split(sub(False), rng.choice([-1, 0, 1, 2])),
         lambda: v.rsplit(rng.choice([None, sub(False)]), rng.choice([-1, 0, 1, 2])), lambda: v.split(None, rng.choice([0, 1, 2])),
